@@ -120,6 +120,60 @@ def chainComposesPos (func : Func) (lin : Lin) : Bool :=
   if func.length ≤ 3 then true
   else evalChain (chainLins lin (func.length - 3)) elems == some (linAtoms lin)
 
+/-! ### C07: un-binarizing a whole deterministic grammar -/
+
+def sameBag {α} [BEq α] (a b : List α) : Bool :=
+  a.length == b.length && a.all (fun x => a.count x == b.count x)
+
+
+def isBinSym (x : Str) : Bool := x.head? == some '@'
+
+/-- the (unique) rule that defines a binarization symbol -/
+def findDef (res : Grammar) (x : Str) : Option (Func × Lin) :=
+  (res.rules.find? fun (f, _, _) => f.head? == some x).map fun (f, l, _) => (f, l)
+
+/-- the chain that starts at a rule: as long as the second right-hand-side element is a binarization symbol,
+    continue with the rule defining it (fuel bounds the length) -/
+def followChain (res : Grammar) : Nat → Func → Lin → List (Func × Lin)
+  | 0, f, l => [(f, l)]
+  | n + 1, f, l =>
+    match f with
+    | [_, _, y] =>
+      if isBinSym y then
+        match findDef res y with
+        | some (f', l') => (f, l) :: followChain res n f' l'
+        | none => [(f, l)]
+      else [(f, l)]
+    | _ => [(f, l)]
+
+/-- compose a chain back into one rule over the original right-hand-side elements -/
+def unbinChain (chain : List (Func × Lin)) : Option (Func × Lin) :=
+  match chain with
+  | [] => none
+  | [(f, l)] => some (f, l)
+  | (f0, _) :: _ =>
+    let lhs := f0.head?.getD []
+    let firsts := chain.map fun (f, _) => f[1]?.getD []
+    let lastSecond := (chain.getLast?.map fun (f, _) => f[2]?.getD []).getD []
+    let labels := firsts ++ [lastSecond]
+    let fos := (chain.map fun (_, l) => (fanOut l)[1]?.getD 0) ++ [((chain.getLast?.map fun (_, l) => (fanOut l)[2]?.getD 0).getD 0)]
+    let elems := fos.zipIdx.map fun (fo, i) => formalBlocks i fo
+    match evalChain (chain.map (·.2)) elems with
+    | some blocks => some (lhs :: labels, blocks.map fun arg => arg.map fun (i, j) => ((i : Int), j))
+    | none => none
+
+def aggregate (rs : List (Func × Lin × Nat)) : AList (Func × Lin) Nat :=
+  rs.foldl (fun acc (f, l, c) => AList.upsert (f, l) (fun o => o.getD 0 + c) acc) []
+
+/-- C07, whole grammar, deterministic labels: un-binarizing `res` gives back exactly the rules of `g`
+    (after the reordering `r`), with their counts -/
+def unbinOK (r : Reordering) (g res : Grammar) : Bool :=
+  let tops := res.rules.filter fun (f, _, _) => !(isBinSym (f.head?.getD []))
+  let recovered := tops.map fun (f, l, c) => ((unbinChain (followChain res res.rules.length f l)), c)
+  let want := aggregate (g.rules.map fun (f, l, c) => let (f', l') := reorder r f l; (f', l', c))
+  recovered.all (fun (x, _) => x.isSome) &&
+  sameBag (aggregate (recovered.filterMap fun (x, c) => x.map fun (f, l) => (f, l, c))) want
+
 /-! ### C08: mass balance -/
 
 def lhsMass (g : Grammar) (x : Str) : Nat :=
@@ -193,8 +247,5 @@ def decCountLines (lines : List Str) : Option (List (Str × Nat)) :=
   lines.mapM fun l => match splitWs l with
     | [s, c] => (strToNat? c).map fun n => (s, n)
     | _ => none
-
-def sameBag {α} [BEq α] (a b : List α) : Bool :=
-  a.length == b.length && a.all (fun x => a.count x == b.count x)
 
 end TT.Spec
